@@ -250,7 +250,7 @@ type someStruct struct {
 	b string
 }
 
-var otherNames = []string{"[]int", "struct", "chan", "func", "typed-nil-ptr", "named-map", "uint8", "float32", "[]interface{}", "map[string]int", "uint64", "nil-slice", "ptr-to-map", "complex128", "int16", "uint", "map[string]string", "[]interface{} of 20", "named-bool", "[]string of 12", "named-string", "named-int", "[]byte holding a version", "[]byte holding text", "*bool", "*named-bool", "*string", "[]string not in order", "[]interface{} with nil inside"}
+var otherNames = []string{"[]int", "struct", "chan", "func", "typed-nil-ptr", "named-map", "uint8", "float32", "[]interface{}", "map[string]int", "uint64", "nil-slice", "ptr-to-map", "complex128", "int16", "uint", "map[string]string", "[]interface{} of 20", "named-bool", "[]string of 12", "named-string", "named-int", "[]byte holding a version", "[]byte holding text", "*bool", "*named-bool", "*string", "[]string not in order", "[]interface{} with nil inside", "uint64 above MaxInt64", "max uint", "max uintptr", "int8", "[]byte holding upper-case ASCII", "yaml-shaped map with a list of maps", "uint32"}
 
 func mkOther(tag int) interface{} {
 	switch tag % len(otherNames) {
@@ -322,6 +322,20 @@ func mkOther(tag int) interface{} {
 		return []string{"writer", "Admin", "reader"}
 	case 28:
 		return []interface{}{"red", nil, "blue", nil}
+	case 29:
+		return uint64(1) << 63
+	case 30:
+		return ^uint(0)
+	case 31:
+		return ^uintptr(0)
+	case 32:
+		return int8(-1)
+	case 33:
+		return []byte("Bearer ABC")
+	case 34:
+		return map[interface{}]interface{}{"name": "ann", 7: 1, "emails": []interface{}{map[interface{}]interface{}{"addr": "a@b"}, "x"}}
+	case 35:
+		return uint32(7)
 	default:
 		return uint(7)
 	}
@@ -497,7 +511,7 @@ func snapshot(v interface{}, ids map[uintptr]int, sb *strings.Builder) {
 		case strSelfPanicFn:
 			fmt.Fprintf(sb, "strSelfPanicFn:%d", x.id)
 		default:
-			fmt.Fprintf(sb, "%T:%s", v, panicTextV(v))
+			fmt.Fprintf(sb, "%T:%s:%s", v, panicTextV(v), goSyntaxV(v))
 		}
 	}
 }
@@ -506,6 +520,16 @@ func snap(v interface{}) string {
 	var sb strings.Builder
 	snapshot(v, map[uintptr]int{}, &sb)
 	return sb.String()
+}
+
+// goSyntaxV: %#v of an arbitrary value (shows the dynamic types inside containers), guarded like panicTextV
+func goSyntaxV(v interface{}) (s string) {
+	defer func() {
+		if recover() != nil {
+			s = "<unprintable>"
+		}
+	}()
+	return fmt.Sprintf("%#v", v)
 }
 
 // panicTextV: %v of an arbitrary value, guarded (a value's own String() may panic in a way fmt does not absorb)
